@@ -99,6 +99,17 @@ def run(ctx):
                     bad = PR.corrupt_text(rng, data)
                     if bad is not None:
                         inputs.append((prep, bad, "non-utf8-content"))
+    # several well-formed messages in a row that reuse the ids the prepared session has in progress, in every combination of kinds
+    # (a response of a foreign kind on a search id, the same final response twice, requests to a client, ...)
+    for _ in range(ctx.scale(600, 12000)):
+        prep = rng.choice(["client_mid", "client_mid", "server_mid", "server_binding", "client_fresh"])
+        n = rng.choice([2, 2, 3, 4])
+        parts_ = []
+        for _ in range(n):
+            kind = rng.choice(["extResp", "bindResp", "searchDone", "searchEntry", "searchRef", "extReq", "bindReq", "searchReq", "unbind"])
+            op = gen.g_op(rng, kind, depth=1)
+            parts_.append(C.msg_from_json({"id": rng.choice([1, 2, 2, 3, 0, 4]), "op": op, "controls": []}).pack(M.PackingOptions()))
+        inputs.append((prep, b"".join(parts_), "id-sequences"))
     notifs = []
     samples = []
     for prep, data, kind in inputs:
